@@ -209,6 +209,27 @@ theorem reach_subset {names : List String} {a b : SortSt} (h : Reach names a b)
   | step _ hat ih => exact atomic_subset hat ih
 
 
+
+/-- the identity part of a callback record (everything except the `before`/`after` requests) -/
+def sameId (a b : Cb) : Prop :=
+  a.name = b.name ∧ a.remove = b.remove ∧ a.matchOk = b.matchOk ∧ a.hid = b.hid ∧ a.replace = b.replace
+
+theorem atomic_sameId {names : List String} {a b : SortSt} (h : Atomic names a b) (j : Nat) :
+    sameId (b.cs[j]!) (a.cs[j]!) := by
+  cases h with
+  | prepend | insert | append => exact ⟨rfl, rfl, rfl, rfl, rfl⟩
+  | setAfter i idx hi hg => simp only [setAfter_get]; split <;> exact ⟨rfl, rfl, rfl, rfl, rfl⟩
+  | setBefore i idx hi hg => simp only [setBefore_get]; split <;> exact ⟨rfl, rfl, rfl, rfl, rfl⟩
+
+theorem reach_sameId {names : List String} {a b : SortSt} (h : Reach names a b) (j : Nat) :
+    sameId (b.cs[j]!) (a.cs[j]!) := by
+  induction h with
+  | refl => exact ⟨rfl, rfl, rfl, rfl, rfl⟩
+  | step _ hat ih =>
+    obtain ⟨h1, h2, h3, h4, h5⟩ := atomic_sameId hat j
+    obtain ⟨g1, g2, g3, g4, g5⟩ := ih
+    exact ⟨h1.trans g1, h2.trans g2, h3.trans g3, h4.trans g4, h5.trans g5⟩
+
 /-! ### every run of `sortCallback` / the main loop is a chain of primitive steps -/
 
 theorem beforeBlock_reach (names : List String) (i : Nat) (st : SortSt)
